@@ -48,4 +48,9 @@ C06_Sem ==
          /\ \A i \in 1..Len(ps) : res.sh[i] \in {FloorI(i), FloorI(i) + 1}
          /\ \A i, j \in 1..Len(ps) : (i < j /\ res.sh[j] = FloorI(j) + 1) => res.sh[i] = FloorI(i) + 1
          /\ \A i \in 1..Len(ps) : res.sh[i] >= 0
+\* Scaling lemma used by the big-number lift: when every share is exact (n * p_i is an integer), multiplying the
+\* total by K multiplies every share by K
+Exact == \A i \in 1..Len(ps) : (n * PNumI(i)) % D = 0
+C06_ScaleLemma == (ps # <<>> /\ res.err = "" /\ Exact) =>
+   \A K \in {2, 3, 7} : LET r2 == Allot(K * n, ps) IN r2.err = "" /\ \A i \in 1..Len(ps) : r2.sh[i] = K * res.sh[i]
 =============================================================================
